@@ -107,7 +107,9 @@ def probe_record(res, first_step):
     if len(st) < 2:
         return ("short",)
     t0, t1 = st[0]["t"][0], st[-1]["t"][1]
-    return (tuple(s["c"] for s in st), tuple(res["trace"][t0:t1]))
+    # `realm_eval` has no early-error classification: both spellings of a SyntaxError are the same outcome here
+    norm = lambda c: "throw:Error<SyntaxError>" if c == "early:SyntaxError" else c
+    return (tuple(norm(s["c"]) for s in st), tuple(res["trace"][t0:t1]))
 
 
 def run(tier, seed):
